@@ -43,6 +43,9 @@ SIG = {
     "lm": "LM.solve|not-stationary",
     "lm_nan": "LM.solve|stagnation-returns-nan",
     "lm_floor": "LM.solve|absolute-nu0-floor-stalls-small-residuals",
+    "lm_buffer": "LM.solve|callable-output-buffer-aliased",
+    "cgls_normx": "CGLS.solve|normx-clause-returns-unconverged-point",
+    "pcgls_normx": "PCGLS.solve|normx-clause-returns-unconverged-point",
     "minimize": "minimize.solve|result-altered",
     "minimize_nojac": "minimize.solve|derivative-free-method-raises-KeyError",
     "maximize": "maximize.solve|not-the-negated-problem",
@@ -257,13 +260,23 @@ def drive_fista(meta, maxit, abstol):
     return fl(x), int(k)
 
 
-def quad_funcs(co, sparse):
+def quad_funcs(co, sparse, buffer=False):
     import scipy.sparse as spa
     Ff = lambda x: np.array([a * x[0] ** 2 + b * x[0] + c for a, b, c in co], dtype=float)
     if sparse:
         Jf = lambda x: spa.csr_matrix(np.array([[2 * a * x[0] + b] for a, b, c in co], dtype=float))
     else:
         Jf = lambda x: np.array([[2 * a * x[0] + b] for a, b, c in co], dtype=float)
+    if buffer and not sparse:
+        # residual / Jacobian callables that write into persistent output arrays and return them (legal for a callable)
+        rb, jb = np.zeros(len(co)), np.zeros((len(co), 1))
+        F0, J0 = Ff, Jf
+        def Ff(x):
+            rb[:] = F0(x)
+            return rb
+        def Jf(x):
+            jb[:] = J0(x)
+            return jb
     return Ff, Jf
 
 
@@ -387,12 +400,19 @@ def oracle_cgls(meta, x, k, maxit, tol):
     nc = not_converged(meta, k, maxit)
     if nc:
         return nc
-    if k >= maxit or np.linalg.norm(x) * tol >= 0.999:
-        return None                      # not stopped by the residual clause: nothing is promised
+    if k >= maxit:
+        return None                      # iteration cap: nothing is promised
     s0 = np.linalg.norm(ne_resid(meta["A"], meta["b"], meta["shift"], meta["x0"]))
     s = np.linalg.norm(ne_resid(meta["A"], meta["b"], meta["shift"], x))
     A_ = np.asarray(meta["A"], dtype=float)
     floor = 1e-12 * (np.linalg.norm(A_.T @ np.asarray(meta["b"], dtype=float)) + np.linalg.norm(ne_resid(meta["A"], 0 * np.asarray(meta["b"], dtype=float), meta["shift"], meta["x0"])))
+    nx = np.linalg.norm(x) * tol
+    if nx >= 0.999:
+        # the absolute clause `normx*tol >= 1` ended the loop: (x, k) is returned exactly like a converged run (the flag is dropped)
+        if nx >= 1.001 and s > 1.001 * tol * s0 + floor:
+            return ("NORMX: CGLS stopped after %d < maxit iterations by its clause |x|*tol >= 1 (|x|*tol = %.3g) at a point that does not solve the "
+                    "normal equations: |A^T(b-Ax)-shift*x| = %.3e > tol*|s0| = %.3e" % (k, nx, s, tol * s0))
+        return None
     if s > 1.001 * tol * s0 + floor:      # floor: rounding level of evaluating the residual, relative to the scale of the data
         return "CGLS stopped after %d iterations with |A^T(b-Ax)-shift*x| = %.3e > tol*|s0| = %.3e (x=%s)" % (k, s, tol * s0, x)
     return None
@@ -403,9 +423,17 @@ def oracle_pcgls(meta, x, k, maxit, tol):
     nc = not_converged(meta, k, maxit)
     if nc:
         return "pcgls", nc
-    if k >= maxit or np.linalg.norm(x) * tol >= 0.999:
+    if k >= maxit:
         return None, None
     Pinv = np.linalg.inv(np.array(meta["P"], dtype=float))
+    nx = np.linalg.norm(x) * tol
+    if nx >= 0.999:
+        s0u = np.linalg.norm(Pinv.T @ ne_resid(meta["A"], meta["b"], 0.0, meta["x0"]))
+        su = np.linalg.norm(Pinv.T @ ne_resid(meta["A"], meta["b"], 0.0, x))
+        if nx >= 1.001 and su > 1.001 * tol * s0u + 1e-12 * s0u:
+            return "pcgls_normx", ("NORMX: PCGLS stopped after %d < maxit iterations by its clause |x|*tol >= 1 (|x|*tol = %.3g) at a point that does not solve "
+                                   "the (unshifted) normal equations: %.3e > tol*|s0| = %.3e" % (k, nx, su, tol * s0u))
+        return None, None
     s0 = np.linalg.norm(Pinv.T @ ne_resid(meta["A"], meta["b"], meta["shift"], meta["x0"]))
     s = np.linalg.norm(Pinv.T @ ne_resid(meta["A"], meta["b"], meta["shift"], x))
     A_ = np.asarray(meta["A"], dtype=float)
@@ -566,7 +594,7 @@ def drive_minimize(meta):
     with patched(scipy.optimize, "minimize", rec), warnings.catch_warnings():
         warnings.simplefilter("ignore")
         try:
-            sol, info = cls(fun, x0, gradfunc=grad, method=meta["method"]).solve()
+            sol, info = cls(fun, x0, gradfunc=grad, method=meta["method"], **meta.get("kwargs", {})).solve()
             out.update(sol=sol, info=info)
         except Exception as e:
             out["raised"] = repr(e)
@@ -619,7 +647,8 @@ def case_cgls_solve(meta):
         cqvec(x), cnat(k), cbool(cert))
     fail = oracle_cgls(meta, x, k, meta["maxit"], meta["tol"])
     return Case(expr=expr, meta=meta, cell="cgls/solve/%s/%s/shift%s/%s/%s" % (meta["shape"], meta["form"], "0" if meta["shift"] == 0 else "+", meta["start"], meta["stopcell"]),
-                trivial=not any(meta["b"]) and not any(meta["x0"]), kind="DECISION", impl_fail=fail, signature=SIG["cgls"] if fail else "")
+                trivial=not any(meta["b"]) and not any(meta["x0"]), kind="DECISION", impl_fail=fail,
+                signature=(SIG["cgls_normx"] if fail.startswith("NORMX") else SIG["cgls"]) if fail else "")
 
 
 def case_pcgls_iters(meta):
@@ -693,20 +722,29 @@ def case_prox(meta, rng):
     S = solver_mod()
     x = np.array(meta["x"], dtype=float)
     if meta["op"] == "prox_l1":
-        p = fl(S.ProximalL1(x.copy(), meta["gamma"]))
+        xin = x.copy()
+        p = fl(S.ProximalL1(xin, meta["gamma"]))
+        _unchanged("x", xin, meta["x"])
         expr = "check_prox_l1 %s %s %s" % (cqvec(meta["x"]), cq(meta["gamma"]), cqvec(p))
         fail = oracle_prox_l1(meta["x"], meta["gamma"], p) if meta["gamma"] >= 0 else None
         return Case(expr=expr, meta=meta, cell="prox_l1/%s" % meta["cell"], trivial=(meta["gamma"] == 0), kind="EXACT", impl_fail=fail,
                     signature=SIG["prox_l1"] if fail else "")
     n = len(x)
     if meta["op"] == "nonneg":
-        p = fl(S.ProjectNonnegative(x.copy()))
+        xin = x.copy()
+        p = fl(S.ProjectNonnegative(xin))
+        _unchanged("x", xin, meta["x"])
         expr = "check_project_nonneg %s %s" % (cqvec(meta["x"]), cqvec(p))
         fail = oracle_projection(meta["x"], [F(0)] * n, [None] * n, p, rng)
         return Case(expr=expr, meta=meta, cell="nonneg/%s" % meta["cell"], trivial=all(v >= 0 for v in meta["x"]), kind="EXACT", impl_fail=fail,
                     signature=SIG["nonneg"] if fail else "")
     lo, up = mk_bound(meta["lo"]), mk_bound(meta["up"])
-    p = fl(S.ProjectBox(x.copy(), lo, up))
+    xin = x.copy()
+    p = fl(S.ProjectBox(xin, lo, up))
+    _unchanged("x", xin, meta["x"])
+    for nm, arr, ref in [("lower", lo, meta["lo"]), ("upper", up, meta["up"])]:
+        if isinstance(arr, np.ndarray):
+            _unchanged(nm, arr, ref)
     expr = "check_project_box %s %s %s %s" % (cqvec(meta["x"]), chb(meta["lo"]), chb(meta["up"]), cqvec(p))
     L = [F(0)] * n if meta["lo"] is None else [frac(v) for v in np.broadcast_to(np.array(meta["lo"], dtype=float), (n,))]
     U = [F(1)] * n if meta["up"] is None else [frac(v) for v in np.broadcast_to(np.array(meta["up"], dtype=float), (n,))]
@@ -743,7 +781,7 @@ def case_lm_trace(meta):
 def case_lm_conv(meta):
     S = solver_mod()
     if meta["op"] == "lm_conv1":
-        Ff, Jf = quad_funcs(meta["co"], meta["sparse"])
+        Ff, Jf = quad_funcs(meta["co"], meta["sparse"], buffer=meta.get("callable") == "buffer")
         x0 = np.array([meta["x0"]], dtype=float)
     else:
         Ff, Jf = lm2_funcs(meta["p"])
@@ -760,6 +798,10 @@ def case_lm_conv(meta):
         return Case(expr="false", meta=meta, cell="lm/converged/%s" % meta["cell"], kind="DECISION",
                     impl_fail="LM returned a non-finite point %s after %d iterations (stagnation: |J^T r|/|g0| stays just above gradtol, nu overflows)" % (fl(x), k),
                     signature=SIG["lm_nan"])
+    rr_obs = np.array(info["func"], dtype=float, copy=True)
+    JJ_obs = info["Jac"].toarray() if hasattr(info["Jac"], "toarray") else np.array(info["Jac"], dtype=float, copy=True)
+    if meta["op"] == "lm_conv1" and meta.get("callable") == "buffer":
+        Ff, Jf = quad_funcs(meta["co"], meta["sparse"])          # independent (allocating) evaluation for the oracle
     g0, g = lm_grad_norm(Ff, Jf, x0), lm_grad_norm(Ff, Jf, x)
     fired = k < meta["maxit"]
     fail = None
@@ -772,8 +814,7 @@ def case_lm_conv(meta):
         fail = ("LM used all %d iterations and returned the non-stationary point x=%s: |J^T r|/|J0^T r0| = %.3e (gradtol %.1e)"
                 % (k, fl(x), g / g0, meta["gradtol"]))
     # info['func'] and info['Jac'] must be the residual and Jacobian AT the returned point
-    rr = np.asarray(info["func"], dtype=float)
-    JJ = info["Jac"].toarray() if hasattr(info["Jac"], "toarray") else np.asarray(info["Jac"])
+    rr, JJ = rr_obs, JJ_obs
     Jx = Jf(x); Jx = Jx.toarray() if hasattr(Jx, "toarray") else Jx
     consistent = bool(np.array_equal(rr, Ff(x)) and np.array_equal(JJ, Jx))
     if fail is None and not consistent:
@@ -781,7 +822,8 @@ def case_lm_conv(meta):
     expr = "%s" % cbool(consistent)
     sig = ""
     if fail:
-        sig = SIG["lm_floor"] if (not fired and meta.get("rho_class") == "floor-dominates") else SIG["lm"]
+        sig = (SIG["lm_buffer"] if meta.get("callable") == "buffer" else
+               SIG["lm_floor"] if (not fired and meta.get("rho_class") == "floor-dominates") else SIG["lm"])
     return Case(expr=expr, meta=meta, cell="lm/converged/%s" % meta["cell"], kind="DECISION", trivial=not fired and not meta.get("must_converge"), impl_fail=fail,
                 signature=sig)
 
@@ -813,7 +855,8 @@ def case_minimize(meta):
     else:   # repaired wrapper: a missing 'jac' is passed on as None
         expr = "check_minimize_nojac %s %s %s" % (sp_record(res), cqvec(fl(sol)), info_record(info))
     # arguments handed to SciPy: x0, method, jac
-    passed_ok = (np.array_equal(np.asarray(a[1]), np.array(meta["x0"], dtype=float)) and k.get("method") == meta["method"])
+    passed_ok = (np.array_equal(np.asarray(a[1]), np.array(meta["x0"], dtype=float)) and k.get("method") == meta["method"]
+                 and all(k.get(kk) == vv for kk, vv in meta.get("kwargs", {}).items()))
     # independent oracle: returned solution and info are SciPy's, unchanged
     sgn = -1.0 if fixed_max else 1.0
     same = (np.array_equal(np.asarray(sol), res["x"]) and info["func"] == sgn * res["fun"] and info["nit"] == res.get("nit") and info["nfev"] == res["nfev"]
@@ -1067,6 +1110,16 @@ def metas(ctx):
             if shiftcell == "0":
                 out.append(dict(me, op="pcgls_iters", K=min(len(me["A"]), n) + 1))
             out.append(dict(me, op="pcgls_solve", tol=1e-6, maxit=100))
+            if (form, pinv) in [("dense", "explicit"), ("fun", "explicit")] and pkind in ("identity", "general"):
+                # the clause |x|*tol >= 1 is about the CURRENT iterate: a large start (|x0|*tol >= 1) with a small solution must not stop the run
+                mn = dict(me, b=[rng.randint(-1, 1) for _ in me["b"]], x0=[rng.choice([-1, 1]) * rng.randint(9, 15) for _ in me["x0"]], start="large")
+                if not any(mn["b"]):
+                    mn["b"][0] = 1
+                mn["pkind"] = pkind + "/normx-shrinking"
+                out.append(dict(mn, op="pcgls_solve", tol=2.0 ** -4, maxit=100))
+                if shiftcell == "0":
+                    mc = {k_: v_ for k_, v_ in mn.items() if k_ not in ("P", "pkind", "pinv")}
+                    out.append(dict(mc, op="cgls_solve", tol=2.0 ** -4, maxit=100, stopcell="normx-shrinking"))
             if shiftcell == "0" and (form, pinv) in [("dense", "explicit"), ("sparse", "spsolve")] and (pkind in ("diagonal", "general") or ctx.thorough):
                 sc_name, sA, sb = rng.choice([("rhs*2^-30", 1.0, 2.0 ** -30), ("rhs*2^30", 1.0, 2.0 ** 30), ("A*2^-15", 2.0 ** -15, 1.0), ("A*2^15", 2.0 ** 15, 1.0),
                                               ("both*2^30", 2.0 ** 30, 2.0 ** 30)])
@@ -1171,6 +1224,10 @@ def metas(ctx):
             if rho <= 16:
                 out.append(dict(me, op="lm_conv1", maxit=5000, gradtol=1e-6, must_converge=True, use_nu0=True, rho_class="harmless",
                                 cell="n1/engineered/%s/sigma2^%d" % (lab, k)))
+                if not sparse:
+                    # the same problems through residual/Jacobian callables that return persistent buffers
+                    out.append(dict(me, op="lm_conv1", maxit=5000, gradtol=1e-6, must_converge=True, use_nu0=True, rho_class="harmless", callable="buffer",
+                                    cell="n1/buffer-callables/%s/sigma2^%d" % (lab, k)))
     LM_SCALES = [-10, -5, 0, 5, 10]
     LM_RHOS = [-20, -10, -3, 3]            # log2(nu0 / sigma^2): the floor is harmless (the unchanged code converges on all of these)
     for k, lr, sparse in itertools.product(LM_SCALES, LM_RHOS, [False, True]):
@@ -1212,6 +1269,9 @@ def metas(ctx):
             c = [rng.randint(-3, 3), rng.randint(-3, 3), rng.randint(1, 4) * rng.choice([-1, 1])]
             out.append({"op": op, "method": method, "with_grad": with_grad, "obj": obj, "c": c, "x0": [rng.randint(-3, 3) for _ in range(dim)],
                         "cuqiarray": rng.random() < 0.3, "probes": [[rng.randint(-4, 4) for _ in range(dim)] for _ in range(3)]})
+    for op, kwargs in itertools.product(["minimize", "maximize"], [{"tol": 1e-3}, {"options": {"maxiter": 2}}, {"bounds": [[-1, 1], [-1, 1]]}]):
+        out.append({"op": op, "method": "L-BFGS-B" if "bounds" in kwargs else "BFGS", "with_grad": True, "obj": "quad2", "c": [rng.randint(-3, 3), rng.randint(-3, 3), 1],
+                    "x0": [rng.randint(-1, 1), rng.randint(-1, 1)], "cuqiarray": False, "probes": [[1, 2], [0, -1]], "kwargs": kwargs})
     for with_grad in [True, False]:
         for kwargs in [{}, {"maxiter": 1}, {"maxfun": 1}]:
             obj = "quart2"
@@ -1244,6 +1304,9 @@ LM_CORPUS = [
     ("reject@0<nu<nu0", -3, [(0.25, -0.375, 0.375)], 0.5, 1.0),
     ("reject@0<nu<nu0", -6, [(0.03125, 0.015625, 0.046875)], -0.5, 2.0 ** -10),
     ("reject@0<nu<nu0", 0, [(2.0, -1.0, 2.0), (1.0, -2.0, 0.0)], 0.0, 4.0),
+    # |g0| = 4 = 4 nu0 and a linear problem (gain ratio 1): nu = 4, 2, 1 -- lands EXACTLY on nu0, where `nu < nu0` is false and nu stays 1
+    ("nu-halves-onto-nu0", 0, [(0.0, 1.0, -5.0), (0.0, 1.0, 1.0)], 4.0, 1.0),
+    ("nu-halves-onto-nu0", -3, [(0.0, 0.125, -0.625), (0.0, 0.125, 0.125)], 4.0, 2.0 ** -6),
 ]
 
 # witnesses of the known findings (fixed inputs)
@@ -1252,10 +1315,15 @@ W_PCGLS_SHIFT = {"op": "pcgls_solve", "A": [[1, 0], [0, 2], [1, 1]], "b": [1, 2,
 W_MAXIMIZE_INFO = {"op": "maximize", "method": None, "with_grad": True, "obj": "quad1", "c": [1, 0, 1], "x0": [3], "cuqiarray": False, "probes": [[0], [2]]}
 W_MIN_NOJAC = {"op": "minimize", "method": "Nelder-Mead", "with_grad": False, "obj": "quad1", "c": [1, 0, 1], "x0": [3], "cuqiarray": False, "probes": [[0], [2]]}
 W_LM_NAN = {"op": "lm_conv2", "p": {"a": 4, "b": -2, "c": 1, "d": 1}, "x0": [0, 0], "maxit": 10000, "gradtol": 1e-08, "cell": "n2"}
+# LinearRTO-like use: default tol 1e-6 and a solution of size ~1e9 (data in small units): one iteration, (x, 1) returned as if converged
+W_CGLS_NORMX = {"op": "cgls_solve", "A": [[1, 0], [0, 2], [1, 1]], "b": [2.0 ** 30, 2.0 ** 31, 3 * 2.0 ** 30], "x0": [0, 0], "shift": 0.0, "form": "dense",
+                "shape": "over", "start": "zero", "tol": 1e-6, "maxit": 100, "stopcell": "normx/witness"}
+W_PCGLS_NORMX = {"op": "pcgls_solve", "A": [[1, 0], [0, 2], [1, 1]], "b": [2.0 ** 30, 2.0 ** 31, 3 * 2.0 ** 30], "x0": [0, 0], "P": [[2, 0], [1, 1]],
+                 "pkind": "triangular/normx-witness", "pinv": "explicit", "form": "dense", "shape": "over", "start": "zero", "shift": 0.0, "tol": 1e-6, "maxit": 100}
 W_LM_FLOOR = {"op": "lm_conv2", "p": {"a": 10, "b": 1, "c": 0, "d": 0, "sigma": 2.0 ** -10}, "x0": [-1.2, 1.0], "maxit": 10000, "gradtol": 1e-08,
               "must_converge": True, "rho_class": "floor-dominates", "cell": "n2/rosenbrock/sigma2^-10/default-nu0"}
 WITNESSES = {SIG["pcgls_shift"]: W_PCGLS_SHIFT, SIG["maximize_info"]: W_MAXIMIZE_INFO, SIG["minimize_nojac"]: W_MIN_NOJAC, SIG["lm_nan"]: W_LM_NAN,
-             SIG["lm_floor"]: W_LM_FLOOR}
+             SIG["lm_floor"]: W_LM_FLOOR, SIG["cgls_normx"]: W_CGLS_NORMX, SIG["pcgls_normx"]: W_PCGLS_NORMX}
 
 
 def run(ctx):
@@ -1264,7 +1332,7 @@ def run(ctx):
     LM_BRANCHES.clear()
     with warnings.catch_warnings():
         warnings.simplefilter("ignore")
-        for me in [W_PCGLS_SHIFT, W_MAXIMIZE_INFO, W_MIN_NOJAC, W_LM_NAN, W_LM_FLOOR] + metas(ctx):
+        for me in [W_PCGLS_SHIFT, W_MAXIMIZE_INFO, W_MIN_NOJAC, W_LM_NAN, W_LM_FLOOR, W_CGLS_NORMX, W_PCGLS_NORMX] + metas(ctx):
             cases.append(build_case(me, _r.Random(int(hashlib.sha1(json.dumps(me, sort_keys=True, default=str).encode()).hexdigest()[:8], 16))))
     # the LM traces are the expensive terms (~0.3 s of rational arithmetic per LM step): spread them evenly over the shards
     heavy = [c for c in cases if c.meta.get("op") == "lm_trace"]
@@ -1306,8 +1374,12 @@ def classify(meta, detail):
     op = m.get("op", "")
     d = str(detail or "")
     if op.startswith("cgls"):
+        if d.startswith("NORMX"):
+            return SIG["cgls_normx"]
         return SIG["cgls_forms"] if "differ from the dense" in d else SIG["cgls"]
     if op.startswith("pcgls"):
+        if d.startswith("NORMX"):
+            return SIG["pcgls_normx"]
         if "differ from the dense" in d:
             return SIG["pcgls_forms"]
         return SIG["pcgls_shift"] if m.get("shift") else SIG["pcgls"]
@@ -1318,6 +1390,8 @@ def classify(meta, detail):
     if op.startswith("lm"):
         if "non-finite" in d:
             return SIG["lm_nan"]
+        if m.get("callable") == "buffer":
+            return SIG["lm_buffer"]
         return SIG["lm_floor"] if ("used all" in d and m.get("rho_class") == "floor-dominates") else SIG["lm"]
     if op in ("minimize", "maximize"):
         if "KeyError('jac')" in d:
